@@ -1057,3 +1057,76 @@ contract(
     ensures=[("smallest whole number of pixels covering value up to a tenth of a pixel", lambda value, res, result: And(is_int_obj(result), result * Abs(res) >= value - 0.1 * Abs(res), (result - 1) * Abs(res) < value - 0.1 * Abs(res)))],
     returns=lambda value: Int(),
 )
+
+
+# ---- resolution / buffered / coordinates (axis-aligned grids) -----------------------------------------------------------------------
+
+contract(
+    "odc.geo.math:resolution_from_affine",
+    ["C02", "C20"],
+    inputs=dict(A=Build("affine:Affine", OneOf(Real(gt=0), Real(lt=0)), 0, Real(), 0, OneOf(Real(gt=0), Real(lt=0)), Real())),
+    ensures=[("axis-aligned: the pixel size is (a, e), signs included", lambda A, result: And(result.x == A.a, result.y == A.e))],
+    requires=[lambda A: And(A.b == 0, A.d == 0)],
+    returns=lambda A: Build(f"{TYPES}:Resolution", Real(), Real()),
+    note="rotated / sheared transforms go through decompose_rws (numpy.linalg): bounded check under C20; the precondition makes any caller that may pass a rotated transform fail its call-pre obligation instead of assuming this postcondition",
+)
+
+
+def _AA_GEOBOX():
+    """axis-aligned GeoBox: any shape, pixel size of either sign, any origin"""
+    return Build(f"{GBX}:GeoBox", Tup(Int(ge=1), Int(ge=1)), Build("affine:Affine", OneOf(Real(gt=0), Real(lt=0)), 0, Real(), 0, OneOf(Real(gt=0), Real(lt=0)), Real()), CRSShape("EPSG:3857"))
+
+
+def _buffered_post(self, xbuff, ybuff, result):
+    yb = xbuff if ybuff is None else ybuff
+    rx, ry = Abs(self.affine.a), Abs(self.affine.e)
+    bx = (result.shape.x - self.shape.x) / 2
+    by = (result.shape.y - self.shape.y) / 2
+    return And(
+        # same grid, grown symmetrically by whole pixels
+        is_int_valued(bx),
+        is_int_valued(by),
+        aff_eq(result.affine, self.affine * T_(-bx, -by)),
+        result.crs is self.crs,
+        # X is buffered by the X amount in X pixels, Y by the Y amount in Y pixels:
+        # at least the requested buffer (up to a tenth of a pixel), and no more than one pixel beyond it
+        bx * rx >= xbuff - 0.1 * rx,
+        (bx - 1) * rx < xbuff - 0.1 * rx,
+        by * ry >= yb - 0.1 * ry,
+        (by - 1) * ry < yb - 0.1 * ry,
+    )
+
+
+contract(
+    f"{GBX}:GeoBox.buffered",
+    ["C02"],
+    inputs=dict(self=_AA_GEOBOX(), xbuff=Real(ge=0), ybuff=OneOf(None, Real(ge=0))),
+    ensures=[("same grid grown by whole pixels on every side: each axis by ITS buffer measured in ITS pixel size, covering the request up to 0.1 px and exceeding it by less than a pixel", _buffered_post)],
+    note="axis-aligned grids (any pixel size / sign, non-square pixels); rotated grids measure the buffer with the decomposed scale (numpy.linalg): not decided",
+    inline=True,
+)
+
+
+def _coordinates_post(self, k, result):
+    ydim, xdim = self.dimensions
+    cx, cy = result[xdim], result[ydim]
+    wx, _ = self.affine * (k + 0.5, 0.5)
+    _, wy = self.affine * (0.5, k + 0.5)
+    return And(
+        cx.values.size == self.shape.x,
+        cy.values.size == self.shape.y,
+        Implies(k < self.shape.x, cx.values[k] == wx),
+        Implies(k < self.shape.y, cy.values[k] == wy),
+        cx.resolution == self.affine.a,
+        cy.resolution == self.affine.e,
+    )
+
+
+contract(
+    f"{GBX}:GeoBox.coordinates",
+    ["C02", "C09"],
+    inputs=dict(self=_AA_GEOBOX(), k=Int(ge=0)),
+    ensures=[("one label per pixel per axis: label k is the world coordinate of the centre of pixel k (ghost k); resolution = signed pixel size", _coordinates_post)],
+    note="numpy.arange through its arithmetic-progression model; k is a ghost index, universally quantified",
+    inline=True,
+)
